@@ -49,6 +49,11 @@ IRFIELDS = ["Value._name", "Value._shape", "Value._type", "Value._producer", "Va
 
 
 def build(eng, tier):
+    build_identity(eng)
+    build_dedup(eng, tier)
+
+
+def build_identity(eng):
     schema.core_ir(eng)
     eng.spec_fn(SPEC)
     unchanged = "unchanged(%s)" % ", ".join(repr(f) for f in IRFIELDS)
@@ -94,7 +99,6 @@ def build(eng, tier):
             # only Identity nodes of the default domain are ever rewritten
             "implies(result, old(node._op_type == 'Identity' and node._domain == ''))"],
         raises={"AnyException": [], "ValueError": []}, assert_mode="raise"))
-    build_dedup(eng, tier)
 
 
 def build_dedup(eng, tier):
